@@ -2,6 +2,8 @@ import GqlVerif.Props.C17
 import GqlVerif.Proofs.C02Closure
 import GqlVerif.Proofs.C17Fuel
 import GqlVerif.Proofs.C17FuelSpec
+import GqlVerif.Proofs.SerdeFuelWitness
+import GqlVerif.Proofs.SerdeFuelCodegen
 open GqlVerif.C17
 #print axioms search_guarded_eq
 #print axioms search_guarded_total
@@ -35,3 +37,41 @@ open GqlVerif.C17
 #print axioms GqlVerif.C17F.subscription_rule_fuel_indep
 #print axioms GqlVerif.C17F.validDef_subscription_fuel_indep
 #print axioms GqlVerif.C17F.rootKeys_not_fuel_indep
+-- the serde model's fuel: monotone, and never exhausted / irrelevant above what `de` / `ser` pass on acyclic environments with at most one Box per member (Proofs/SerdeFuel*.lean)
+#print axioms GqlVerif.SerdeFuel.dePath_mono
+#print axioms GqlVerif.SerdeFuel.deFlat_mono
+#print axioms GqlVerif.SerdeFuel.deTy_mono
+#print axioms GqlVerif.SerdeFuel.serPath_mono
+#print axioms GqlVerif.SerdeFuel.serTy_mono
+#print axioms GqlVerif.SerdeFuel.dePath_fuel_eq
+#print axioms GqlVerif.SerdeFuel.deFlat_fuel_eq
+#print axioms GqlVerif.SerdeFuel.deTy_fuel_eq
+#print axioms GqlVerif.SerdeFuel.serPath_fuel_eq
+#print axioms GqlVerif.SerdeFuel.serTy_fuel_eq
+#print axioms GqlVerif.SerdeFuel.deTy_fuel_indep
+#print axioms GqlVerif.SerdeFuel.dePath_fuel_indep
+#print axioms GqlVerif.SerdeFuel.deFlat_fuel_indep
+#print axioms GqlVerif.SerdeFuel.de_fuel_indep
+#print axioms GqlVerif.SerdeFuel.de_never_out_of_fuel
+#print axioms GqlVerif.SerdeFuel.serTy_fuel_indep
+#print axioms GqlVerif.SerdeFuel.ser_fuel_indep
+#print axioms GqlVerif.SerdeFuel.ser_never_out_of_fuel
+#print axioms GqlVerif.SerdeFuel.roundtrip_fuel_indep
+#print axioms GqlVerif.SerdeFuel.roundtrip_never_out_of_fuel
+#print axioms GqlVerif.SerdeFuel.de_stable
+#print axioms GqlVerif.SerdeFuel.ser_stable
+#print axioms GqlVerif.SerdeFuel.envOK_of_check
+#print axioms GqlVerif.SerdeFuel.envOK_of_acyclic
+#print axioms GqlVerif.SerdeFuel.envOKS_of_acyclic
+#print axioms GqlVerif.SerdeFuel.responseForQuery_boxBound
+#print axioms GqlVerif.SerdeFuel.module_boxBound
+#print axioms GqlVerif.SerdeFuel.module_envOK_of_acyclic
+#print axioms GqlVerif.SerdeFuel.module_envOK_of_check
+#print axioms GqlVerif.SerdeFuel.generated_module_fuel_exhausted
+#print axioms GqlVerif.SerdeFuel.generated_module_read
+#print axioms GqlVerif.SerdeFuel.generated_module_never_out_of_fuel
+#print axioms GqlVerif.SerdeFuel.box_fuel_matters
+#print axioms GqlVerif.SerdeFuel.alias_cycle_always_out_of_fuel
+#print axioms GqlVerif.SerdeFuel.spread_cycle_module_not_acyclic
+#print axioms GqlVerif.SerdeFuel.e2e_example_modules_ok
+#print axioms GqlVerif.SerdeFuel.e2e_example_modules_acyclic
